@@ -169,8 +169,36 @@ Fixpoint ref_desym (fuel : nat) (decl : list nat) (ops : list sop) : list sop :=
                                                 | _ => true end) ops)
       end
   end.
+(* per-case validation of the model's result against the semantics the theorems are stated in: under a
+   concrete interpretation the rewritten block computes the same values and leaves the same content in
+   the cells of the enclosing scope *)
+Definition c_outv (n : nat) : Z := Z.of_nat n * 7 + 1.
+Definition c_usef (id : nat) (args : list Z) : Z := Z.of_nat id + 3 * nth 0 args 0 + 5 * nth 1 args 0.
+Definition c_init (s : nat) : Z := 100 + Z.of_nat s.
+Fixpoint trace_eqb (a b : list (nat * Z)) : bool :=
+  match a, b with
+  | [], [] => true
+  | (i, x) :: a', (j, y) :: b' => Nat.eqb i j && (x =? y) && trace_eqb a' b'
+  | _, _ => false
+  end.
+Definition none_env : fenv := fun _ => None.
+Definition sem_same (ops res : list sop) : bool :=
+  trace_eqb (sym_run c_outv c_usef c_init res none_env none_env none_env)
+            (sym_run c_outv c_usef c_init ops none_env none_env none_env)
+  && forallb (fun s => existsb (Nat.eqb s) (declared ops)
+                       || (sym_cell c_init (sym_final c_outv c_usef c_init res none_env none_env none_env) s
+                           =? sym_cell c_init (sym_final c_outv c_usef c_init ops none_env none_env none_env) s))
+             (symbols_of ops).
+Definition all_declared (ops : list sop) : bool :=
+  forallb (fun s => existsb (Nat.eqb s) (declared ops)) (symbols_of ops).
 Definition c16_desym (ops : list sop) : sx :=
   match desym_block ops with
   | DLoop => L [I (-3)]
-  | DOk r => L [L (map enc_sop r); L (map enc_sop (ref_desym 6 (declared ops) ops)); sB (wf_block ops [])]
+  | DOk r =>
+      (* when every symbol is declared in the block the pass result must BE the reference `forward`;
+         with enclosing-scope symbols the surviving leading fetch may differ from forward2's choice *)
+      L [L (map enc_sop r);
+         L (map enc_sop (if all_declared ops then forward ops [] [] else r));
+         sB (wf_block ops []); sB (sem_same ops r);
+         sB (sem_same ops (forward2 (declared ops) ops [] []))]
   end.
